@@ -264,7 +264,11 @@ def rule_usage_eval(chk, prefix="C02.usage"):
 
     def deref(v):
         return v.get() if isinstance(v, I.Ref) else v
-    ext = {"FunctionRegistry::iter": lambda a: [fid(i) for i in sorted(bodies)],
+    # (function 2 is the instantiation of a function template: it keeps its template parameter list AND has a body of its own)
+    ext = {"FunctionRegistry::get_function_signature": lambda a: I.Enum("FunctionSignature", None, {"return_type": I.Opaque("return type"), "param_types": [],
+                                                                                                 "template_params": [I.Opaque("template parameter")] if deref(a[1]).fields["0"] == 2 else []}),
+           "FunctionRegistry::get_template_source": lambda a: opt(None), "FunctionRegistry::get_template_instantiation_data": lambda a: opt(I.Opaque("instantiation data") if deref(a[1]).fields["0"] == 2 else None),
+           "FunctionRegistry::iter": lambda a: [fid(i) for i in sorted(bodies)],
            "FunctionRegistry::get_function_implementation": lambda a: opt(None) if bodies[deref(a[1]).fields["0"]] is None else opt(I.Enum("FunctionImplementation", None, {"scope_block": bodies[deref(a[1]).fields["0"]], "params": [], "attributes": []}))}
     module = I.Enum("Module", None, {"function_registry": I.Opaque("function registry"), "global_registry": [I.Opaque("global")] * (g_mid + 1), "cbuffer_registry": [I.Opaque("cbuffer")]})
     want = {0: ({i for i in planted} | {g_mid, g_far}, {1, 2}, {0}), 1: ({g_mid, g_far}, {2}, {0}), 2: ({g_far}, set(), {0}), 3: ({g_unused}, set(), set()), 4: (set(), set(), set())}
